@@ -203,7 +203,7 @@ def run(P, C):
     # argument validation: throwing guards for length, range, duplicate, missing — before any member is written
     from . import vg
     gs = vg.guards_of(f)
-    C.rule("VG-3", "the argument is rejected unless it is a permutation of 0..ndim-1 (length, range, duplicate, missing) before any member is written", floor=4)
+    C.rule("VG-3", "the argument is rejected unless it is a permutation of 0..ndim-1 (length, range, duplicate, missing) before any member is written; the entry is checked at full width", floor=5)
     pos = f.node_positions()
     stores = [i for i in f.walk() if ts.member_writes(f, i) and i in pos]
     kinds = {}
@@ -217,6 +217,24 @@ def run(P, C):
             kinds["duplicate"] = g
         elif txt in ("(!v0[v1])", "(!v0[v1].operator bool())"):
             kinds["missing"] = g
+    # the validated value is the entry itself, at full width: a narrowed copy would let 2^32+k pass as k
+    g = kinds.get("out-of-range")
+    narrowed = None
+    if g is not None:
+        txt, order = f.alpha(f.nodes[g["node"]]["cond"])
+        vid = order[0] if order else None
+        elem = None
+        for x in f.walk():
+            if f.k(x) == "DeclStmt":
+                for d in f.nodes[x]["decls"]:
+                    if d.get("id") == vid:
+                        init = f.strip(d["init"], casts=False) if d.get("init", -1) >= 0 else -1
+                        src_t = f.nodes[f.strip(d["init"])].get("ct", f.nodes[f.strip(d["init"])].get("t", "")) if d.get("init", -1) >= 0 else ""
+                        narrowed = (d.get("ctype", "").replace("const ", ""), src_t.replace("const ", ""))
+    wide = {"unsigned long": 8, "size_t": 8, "unsigned long long": 8, "long": 8, "unsigned int": 4, "uint32_t": 4, "int": 4}
+    okw = narrowed is not None and wide.get(narrowed[0], 0) >= wide.get(narrowed[1], 8)
+    C.ob("VG-3", "permuteDimensions", "entry-not-narrowed", okw, f.loc(g["node"]) if g else f.where(),
+         "the value range-checked against ndim has the width of the permutation's element type: checked as %s, element type %s" % (narrowed or ("?", "?")))
     for k in ("wrong-length", "out-of-range", "duplicate", "missing"):
         g = kinds.get(k)
         ok = g is not None
